@@ -728,6 +728,10 @@ void MEDDLY::VM_MULTIPLY_factory::setup()
 MEDDLY::binary_operation*
 MEDDLY::VM_MULTIPLY_factory::build_new(forest* a, forest* b, forest* c)
 {
+    if (!a->isMultiTerminal() || !b->isMultiTerminal() || !c->isMultiTerminal())
+    {
+        throw error(error::TYPE_MISMATCH, __FILE__, __LINE__);
+    }
     switch (c->getRangeType()) {
         case range_type::INTEGER:
             return new prepost_set_mtrel<EdgeOp_none,
@@ -764,6 +768,10 @@ void MEDDLY::MV_MULTIPLY_factory::setup()
 MEDDLY::binary_operation*
 MEDDLY::MV_MULTIPLY_factory::build_new(forest* a, forest* b, forest* c)
 {
+    if (!a->isMultiTerminal() || !b->isMultiTerminal() || !c->isMultiTerminal())
+    {
+        throw error(error::TYPE_MISMATCH, __FILE__, __LINE__);
+    }
     switch (c->getRangeType()) {
         case range_type::INTEGER:
             return new prepost_set_mtrel<EdgeOp_none,
